@@ -97,7 +97,15 @@ def rival_oracle(w, s):
     if r is None or rec is None or rec["outcome"] is None:
         return {"class": "no_outcome", "detail": "main %s rival %s" % (rec and rec["outcome"], r), "sig": {"what": "no_outcome"}}
     outs = []
+    refused = lambda o: o["kind"] == "exc" and o.get("type") == "RuntimeError" and "already running" in str(o.get("args"))  # noqa
+    both_accepted = not refused(rec["outcome"]) and not refused(r)
     for who, c, o, vals in (("main", 0, rec["outcome"], rec["values"]), ("rival", 1, r, r.get("values"))):
+        if who == "rival" and both_accepted:
+            # the two runs did not overlap as far as the guard is concerned: the second one started while the first was
+            # being finalised or afterwards; only the first caller's call is judged (two caller threads on one object
+            # are not part of the statement beyond "one of two overlapping calls is refused")
+            outs.append("not_judged:" + o["kind"])
+            continue
         if o["kind"] == "ok":
             outs.append("ok")
             want = [pc.value_of(c, i) for i in range(case["calls"][c]["n"])]
@@ -146,8 +154,14 @@ def run_case(case):
             w.call_hooks = [hook]
 
             def wait_rival(w_, s_, p):
-                while getattr(w_, "rival", None) is None:        # (bounded by the engine's step / time budget)
+                # bounded: a second call that was ACCEPTED started when the first run was already being finalised
+                # (_running is reset before the backend is terminated); what happens to it is outside the statement
+                # (one caller thread per object) and it may never finish
+                t_end = s_.now + 60.0
+                while getattr(w_, "rival", None) is None and s_.now < t_end:
                     s_.sleep(0.5)
+                if getattr(w_, "rival", None) is None:
+                    w_.rival = {"kind": "unfinished"}
             w.after_hooks = [wait_rival]
     w, s = pc.run_parallel_case(case, setup=setup)
     v = oracle(w, s)
